@@ -20,7 +20,7 @@ func init() {
 		Level: "other",
 		Explanation: "Decided (structural necessary conditions): (R19.1) the exclusion decision of shouldExclude, evaluated over the 4 modes x 8 outcomes of its three opaque sub-predicates by interpreting its control-flow graph, is constantly false for mode None and monotone in the mode order (an element excluded by a weaker mode is excluded by every stronger one); (R19.2) the mode is read only there, so no other part of the traversal depends on it; (R19.3) the per-mode element cache is filled and looked up under the mode that was requested and with elements produced for that mode; (R19.4) script and style are skipped; (R19.5) a list that was emitted is never reused as the accumulator's backing array; (R19.6) the filtered and the unfiltered DOM traversal agree case by case except for the exclusion test. " +
 			"Not decided: completeness of content extraction, entity decoding (delegated to x/net/html), span geometry of tables.",
-		Rules: []func(*eng.Ctx){truncateAfterHandOutRule("R19.TR", "htmldoc", "epubdoc"), ruleNoGuessedTranscoding, ruleTextlessItemKeepsNestedLists, ruleHeaderRowNotRepeated, ruleListStateEndsWithList, ruleDepthCountersBalanced, ruleSetAsideChildrenAllKept, ruleRenderLeavesReader, loopVarRule("R19.LV", "htmldoc", "epubdoc"), ruleModeMonotone, ruleModeReads, ruleCacheKey, ruleSkipTable, ruleEmitNoReuse, ruleSiblingTraversals, ruleExcludeCallers, ruleTraversalStateless, roleRule("R19.R", "htmldoc", "epubdoc"), ruleCheckerPerPass, ruleListItemChildCoverage, ruleTableSections, ruleEpubModePassthrough, ruleNoDoubleDecode, ruleTextCollectorSkipsHidden, ruleRowCellsComplete, ruleBytesNotRunes},
+		Rules: []func(*eng.Ctx){ruleHTMLDocumentsEvaluated, truncateAfterHandOutRule("R19.TR", "htmldoc", "epubdoc"), ruleNoGuessedTranscoding, ruleTextlessItemKeepsNestedLists, ruleHeaderRowNotRepeated, ruleListStateEndsWithList, ruleDepthCountersBalanced, ruleSetAsideChildrenAllKept, ruleRenderLeavesReader, loopVarRule("R19.LV", "htmldoc", "epubdoc"), ruleModeMonotone, ruleModeReads, ruleCacheKey, ruleSkipTable, ruleEmitNoReuse, ruleSiblingTraversals, ruleExcludeCallers, ruleTraversalStateless, roleRule("R19.R", "htmldoc", "epubdoc"), ruleCheckerPerPass, ruleListItemChildCoverage, ruleTableSections, ruleEpubModePassthrough, ruleNoDoubleDecode, ruleTextCollectorSkipsHidden, ruleRowCellsComplete, ruleBytesNotRunes},
 	})
 }
 
